@@ -80,14 +80,14 @@ Proof.
 Qed.
 
 (* ---- B. a file dictionary ---- *)
-Theorem config_file_save_inside : forall pc fp o s d, resolve (p_filedir pc) <> [] ->
+Theorem config_file_save_inside : forall pc fp o s d,
   cfg_file_plan pc fp = Some (o, s, d) ->
   let c := mcfg_of pc in
   (exists p, fp = Some p /\ file_dict_name p <> [] /\ d = m_filedir c ++ slash :: file_dict_name p /\
              o = d ++ tmp_suffix /\ s = o) /\
   path_allowed c o = true /\ path_allowed c d = true /\ rename_allowed c s d = true.
 Proof.
-  intros pc fp o s d HF H. cbv zeta. unfold cfg_file_plan in H. destruct fp as [p |]; [| discriminate H].
+  intros pc fp o s d H. cbv zeta. unfold cfg_file_plan in H. destruct fp as [p |]; [| discriminate H].
   destruct (beqb (file_dict_name p) []) eqn:E; [discriminate H |].
   assert (Hname : file_dict_name p <> []) by (intros E'; rewrite E', beqb_refl in E; discriminate E).
   set (name := file_dict_name p) in *.
@@ -99,10 +99,9 @@ Proof.
   rewrite (save_plan_file _ (names_file_snoc_intro (p_filedir pc) name Hnd)) in H.
   rewrite (resolve_snoc _ _ Hnd) in H.
   rewrite (render_nonempty _ (snoc_nonempty _ (resolve (p_filedir pc)) name)), render'_snoc in H.
-  rewrite <- (render_nonempty _ HF) in H.
-  change (render (resolve (p_filedir pc))) with (m_filedir (mcfg_of pc)) in H.
+  change (render' (resolve (p_filedir pc))) with (m_filedir (mcfg_of pc)) in H.
   set (c := mcfg_of pc) in *. inversion H; subst o s d. clear H.
-  change (render (resolve (p_filedir pc))) with (m_filedir c).
+  change (render' (resolve (p_filedir pc))) with (m_filedir c).
   assert (Hd : dir_of (m_filedir c ++ slash :: name) = m_filedir c) by (apply dir_of_child; exact Hns).
   split; [exists p; repeat split; try reflexivity; exact Hname |].
   split; [| split].
@@ -135,14 +134,6 @@ Proof.
   apply names_file_snoc_intro. exact seg_dictionary_not_dotdot.
 Qed.
 
-Lemma default_filedir_not_root : forall e, resolve (p_filedir (default_pcfg e)) <> [].
-Proof.
-  intros e. cbn [default_pcfg p_filedir].
-  replace (comps (e_datadir e) ++ [seg_harper_ls; seg_file_dicts]) with ((comps (e_datadir e) ++ [seg_harper_ls]) ++ [seg_file_dicts])
-    by (rewrite <- app_assoc; reflexivity).
-  rewrite (resolve_snoc _ _ seg_file_dicts_not_dotdot). apply snoc_nonempty.
-Qed.
-
 (* an absent OR EMPTY userDictPath / fileDictPath means the default location (never the working directory);
    an empty statsPath, in contrast, is resolved like a relative path: the working directory itself *)
 Theorem parse_paths_unset : forall e u f s pc, parse_paths e u f s = Some pc ->
@@ -173,31 +164,78 @@ Proof.
   - destruct (dict_setting e u _); [destruct (dict_setting e f _) |]; reflexivity.
 Qed.
 
-(* ---- E. the whole: every Config the parser can produce ---- *)
+(* ---- E. the whole: every Config the parser can produce.  The file-dictionary part has NO proviso any more (the root
+   directory included); the user-dictionary part holds when the setting names a file, which absent / empty settings do *)
 Theorem config_writes_inside : forall e u f s pc, parse_paths e u f s = Some pc ->
   let c := mcfg_of pc in
   (names_file (p_user pc) = true ->
      cfg_user_plan pc = (m_user c ++ tmp_suffix, m_user c ++ tmp_suffix, m_user c) /\
      path_allowed c (m_user c ++ tmp_suffix) = true /\ path_allowed c (m_user c) = true /\
      rename_allowed c (m_user c ++ tmp_suffix) (m_user c) = true) /\
-  (resolve (p_filedir pc) <> [] -> forall fp o s' d, cfg_file_plan pc fp = Some (o, s', d) ->
+  (forall fp o s' d, cfg_file_plan pc fp = Some (o, s', d) ->
      d = m_filedir c ++ slash :: file_dict_name (match fp with Some p => p | None => [] end) /\
      o = d ++ tmp_suffix /\ s' = o /\
      path_allowed c o = true /\ path_allowed c d = true /\ rename_allowed c s' d = true) /\
   path_allowed c (cfg_stats_write pc) = true /\
-  (unset u -> names_file (p_user pc) = true) /\
-  (unset f -> resolve (p_filedir pc) <> []).
+  (unset u -> names_file (p_user pc) = true).
 Proof.
   intros e u f s pc H. cbv zeta.
   destruct (parse_paths_unset e u f s pc H) as [Hu [Hf _]].
   split; [intros Hn; exact (config_user_save_inside pc Hn) |].
   split.
-  - intros HF fp o s' d Hp.
-    destruct (config_file_save_inside pc fp o s' d HF Hp) as [[p [Efp [_ [Ed [Eo Es]]]]] [A1 [A2 A3]]].
+  - intros fp o s' d Hp.
+    destruct (config_file_save_inside pc fp o s' d Hp) as [[p [Efp [_ [Ed [Eo Es]]]]] [A1 [A2 A3]]].
     subst fp. repeat split; assumption.
-  - split; [apply config_stats_write_allowed |]. split.
-    + intros X. rewrite (Hu X). apply default_user_names_file.
-    + intros X. rewrite (Hf X). apply default_filedir_not_root.
+  - split; [apply config_stats_write_allowed |].
+    intros X. rewrite (Hu X). apply default_user_names_file.
+Qed.
+
+(* ---- F. a userDictPath that names NO file (its last component is `..`, or it has no component: "/", "~/..", "a/..")
+   — config.rs accepts it (only "" is guarded).  What save_dict then does, for every such setting: file_name() is None,
+   tmp_name = ".tmp", with_file_name PUSHES it: the temporary file is created INSIDE the directory the setting names
+   (not next to it), and the rename goes onto that directory (which fails at run time: the file stays).  Finding FC10b. *)
+Lemma names_file_false_tmp : forall cs, names_file cs = false -> tmp_comps cs = cs ++ [tmp_suffix].
+Proof.
+  intros cs H. unfold names_file in H. unfold tmp_comps. destruct (rev cs) as [| n r] eqn:E.
+  - apply (f_equal (@rev bytes)) in E. rewrite rev_involutive in E. subst cs. reflexivity.
+  - destruct (beqb n dotdot); [reflexivity | discriminate H].
+Qed.
+
+Theorem config_user_plan_dir : forall pc, names_file (p_user pc) = false ->
+  let dirp := render' (resolve (p_user pc)) in
+  cfg_user_plan pc = (dirp ++ slash :: tmp_suffix, dirp ++ slash :: tmp_suffix, m_user (mcfg_of pc)).
+Proof.
+  intros pc H. cbv zeta. unfold cfg_user_plan, save_plan. rewrite (names_file_false_tmp _ H).
+  assert (Ht : tmp_suffix <> dotdot) by discriminate.
+  rewrite (resolve_snoc _ _ Ht). rewrite (render_nonempty _ (snoc_nonempty _ _ _)), render'_snoc. reflexivity.
+Qed.
+
+(* the property at full strength for the user dictionary — "whatever userDictPath says, HarperAddToUserDict opens
+   nothing but the configured file or its sibling, and renames only the sibling onto the file" — is FALSE for the code as
+   it is: witness userDictPath = "/a/b/.." *)
+Theorem config_user_write_refuted :
+  exists e u pc o sr d, parse_paths e u SAbsent SAbsent = Some pc /\ cfg_user_plan pc = (o, sr, d) /\
+    path_allowed (mcfg_of pc) o = false /\ rename_allowed (mcfg_of pc) sr d = false.
+Proof.
+  exists (mkenv (bytes_of_string "/home/u") (bytes_of_string "/work/proj") (bytes_of_string "/home/u/.config") (bytes_of_string "/home/u/.local/share")).
+  exists (SString (bytes_of_string "/a/b/..")). eexists. eexists. eexists. eexists.
+  split; [reflexivity |]. split; [vm_compute; reflexivity |]. split; vm_compute; reflexivity.
+Qed.
+
+(* with the proposed fix (fixes/FC10b-user-dict-names-directory.diff: save_dict refuses a destination without a file
+   name) the user-dictionary part holds for EVERY configuration, no proviso *)
+Definition cfg_user_plan_fixed (pc : pcfg) : option (bytes * bytes * bytes) :=
+  if names_file (p_user pc) then Some (cfg_user_plan pc) else None.
+
+Theorem config_user_fixed_inside : forall pc o s d, cfg_user_plan_fixed pc = Some (o, s, d) ->
+  let c := mcfg_of pc in
+  o = m_user c ++ tmp_suffix /\ s = o /\ d = m_user c /\
+  path_allowed c o = true /\ path_allowed c d = true /\ rename_allowed c s d = true.
+Proof.
+  intros pc o s d H. cbv zeta. unfold cfg_user_plan_fixed in H.
+  destruct (names_file (p_user pc)) eqn:Hn; [| discriminate H].
+  destruct (config_user_save_inside pc Hn) as [E [A1 [A2 A3]]]. rewrite E in H. inversion H; subst o s d.
+  repeat split; assumption.
 Qed.
 
 (* the hypothesis `names_file` is needed: a userDictPath that names a DIRECTORY by ending in `..` makes save_dict put
@@ -227,7 +265,7 @@ Lemma config_examples :
     Some (b "/work/proj/~user/d.txt", b "/work/proj/~/fd", b "/abs/st.txt") /\
   parse_render e SNotString SAbsent SAbsent = None /\ parse_render e SAbsent SAbsent SNotString = None /\
   (exists pc, parse_paths e (SString (b "../up/./d.txt")) (SString []) SAbsent = Some pc /\
-     names_file (p_user pc) = true /\ resolve (p_filedir pc) <> [] /\
+     names_file (p_user pc) = true /\
      cfg_user_plan pc = (b "/work/up/d.txt.tmp", b "/work/up/d.txt.tmp", b "/work/up/d.txt") /\
      cfg_file_plan pc (Some (b "/work/proj/a.md")) =
        Some (b "/home/u/.local/share/harper-ls/file_dictionaries/work%proj%a.md%.tmp",
@@ -235,6 +273,6 @@ Lemma config_examples :
              b "/home/u/.local/share/harper-ls/file_dictionaries/work%proj%a.md%")).
 Proof.
   cbv zeta. repeat (split; [vm_compute; reflexivity |]).
-  eexists. split; [reflexivity |]. split; [vm_compute; reflexivity |]. split; [vm_compute; discriminate |].
+  eexists. split; [reflexivity |]. split; [vm_compute; reflexivity |].
   split; vm_compute; reflexivity.
 Qed.
